@@ -542,7 +542,23 @@ func c14History(c *Ctx, idx int) {
 			case ex.must[cc]:
 				r.Obs("must_deliveries_checked", 1)
 				if len(got) != 1 {
-					r.Violate(mon.Violation{Signature: fmt.Sprintf("C14/registered-client-got-%s", countClass(len(got))), Detail: fmt.Sprintf("client %d (registered for %v before the event, connected throughout) received schema event %s %d times (history up to the event's burst: %s; whole history: %s)", cc.cl.ID, cc.regTypes, id, len(got), origin[id], shape.String()), Scenario: scenario})
+					var rec []string
+					for _, f := range cc.cl.Frames() {
+						if f.OpCode == primitive.OpCodeEvent {
+							if fr, derr := rawcql.DecodeWith("", f); derr == nil {
+								if m, ok := fr.Body.Message.(*message.SchemaChangeEvent); ok {
+									rec = append(rec, m.Keyspace+"/"+m.Object)
+									continue
+								}
+							}
+							rec = append(rec, "undecodable-or-other-event")
+						}
+					}
+					if len(rec) > 400 {
+						rec = rec[len(rec)-400:]
+					}
+					r.Violate(mon.Violation{Signature: fmt.Sprintf("C14/registered-client-got-%s", countClass(len(got))), Detail: fmt.Sprintf("client %d (registered for %v before the event, connected throughout) received schema event %s %d times (history up to the event's burst: %s; whole history: %s)", cc.cl.ID, cc.regTypes, id, len(got), origin[id], shape.String()), Scenario: scenario,
+						Witness: map[string]interface{}{"client_closed_now": cc.cl.IsClosed(), "client_saw_bytes_that_are_not_a_frame": cc.cl.Garbage(), "frames_received": len(cc.cl.Frames()), "schema_events_received_in_order": rec}})
 				}
 			case ex.may[cc]:
 				r.Obs("may_deliveries_checked", 1)
